@@ -443,6 +443,23 @@ func (rt *runtime) convertCallParameter(v Value, t reflect.Type) (reflect.Value,
 		}
 	}
 
+	if (tk == reflect.String || tk == reflect.Bool) && t.PkgPath() != "" {
+		// A named string/bool type (type Color string): convert as for the basic
+		// type, then to the named type (reflect.Call/Set would panic otherwise).
+		basic := reflect.TypeOf("")
+		if tk == reflect.Bool {
+			basic = reflect.TypeOf(false)
+		}
+		bv, err := rt.convertCallParameter(v, basic)
+		if err != nil {
+			return reflect.Zero(t), err
+		}
+		if bv.Type().ConvertibleTo(t) {
+			return bv.Convert(t), nil
+		}
+		return bv, nil
+	}
+
 	switch tk {
 	case reflect.Bool:
 		return reflect.ValueOf(v.bool()), nil
@@ -543,7 +560,7 @@ func (rt *runtime) convertCallParameter(v Value, t reflect.Type) (reflect.Value,
 					err = fmt.Errorf("couldn't convert property %q of %s: %w", k, t, verr)
 					return false
 				}
-				m.SetMapIndex(reflect.ValueOf(k), v)
+				m.SetMapIndex(reflect.ValueOf(k).Convert(t.Key()), v)
 				return true
 			})
 
